@@ -71,7 +71,13 @@ fn push_frame(c: &mut ConnState, bytes: &[u8], ex: u64, pos: u64, planned: bool)
     c.marks.push_back((bytes.len(), ex, pos, planned));
 }
 
+/// Events one public call may produce before it counts as running away (a fault-free call needs a few dozen, 20 failed attempts
+/// a few hundred).
+const EVENT_BUDGET: usize = 40_000;
+
 pub struct Term {
+    call_mark: usize,
+    runaway: bool,
     start: tokio::time::Instant,
     events: Vec<Value>,
     conns: Vec<Arc<Mutex<ConnState>>>,
@@ -94,6 +100,11 @@ impl Term {
     fn log(&mut self, mut e: Value) {
         e["t"] = json!(now_ms(self.start));
         self.events.push(e);
+        if self.events.len() > self.call_mark + EVENT_BUDGET {
+            // a call that keeps talking without ever returning: from here on the terminal is silent for good, so that only the
+            // one-virtual-day watchdog is left (the call is reported as hanging instead of filling the memory)
+            self.runaway = true;
+        }
     }
     fn ledger_event(&mut self) {
         let open: Vec<Value> = self.ledger.iter().map(|(r, a, tok)| json!([r, digits(*a), tok])).collect();
@@ -166,7 +177,15 @@ fn script_for(term: &mut Term, frame: &[u8], plan: &Value) -> (Vec<Vec<u8>>, Str
             // Reservation
             let req = p::Reservation::zvt_deserialize(frame).ok().map(|x| x.0);
             match o.as_str() {
-                "abort" => frames.push(abort(code)),
+                "abort" => {
+                    if plan.get("status_first").and_then(|b| b.as_bool()).unwrap_or(false) {
+                        // a declined payment: a status information that already carries a receipt number, then the abort
+                        let r = term.next_receipt;
+                        term.next_receipt = if r >= 9999 { 1 } else { r + 1 };
+                        frames.push(status_from(&empty, Some(r as usize)).zvt_serialize());
+                    }
+                    frames.push(abort(code))
+                }
                 "noreceipt" => {
                     if plan.get("open").and_then(|b| b.as_bool()).unwrap_or(false) {
                         let r = term.next_receipt;
@@ -291,8 +310,19 @@ fn script_for(term: &mut Term, frame: &[u8], plan: &Value) -> (Vec<Vec<u8>>, Str
                 }
             }
         }
+        (0x06, 0x1b) => {
+            // Set terminal id: from now on the terminal reports the new id
+            if o == "abort" {
+                frames.push(abort(code))
+            } else {
+                if let Some(id) = p::SetTerminalId::zvt_deserialize(frame).ok().and_then(|x| x.0.terminal_id) {
+                    term.terminal_id = format!("{:08}", id);
+                }
+                frames.push(completion())
+            }
+        }
         _ => {
-            // Initialization, SetTerminalId and anything else: completion or abort
+            // Initialization and anything else: completion or abort
             if o == "abort" { frames.push(abort(code)) } else { frames.push(completion()) }
         }
     }
@@ -334,7 +364,7 @@ fn send_next(term: &mut Term, c: &mut ConnState, cst: &Arc<Mutex<ConnState>>) {
     let pos = c.pos;
     c.pos += 1;
     if let Some((fp_, kind)) = c.fault.clone() {
-        if fp_ == pos {
+        if fp_ == pos && kind != "write_error" {
             term.log(json!({"e": "fault", "conn": c.id, "ex": c.ex, "pos": pos, "kind": kind}));
             c.pending.clear();
             match kind.as_str() {
@@ -423,6 +453,9 @@ fn cmd_kind(frame: &[u8]) -> &'static str {
 impl AsyncWrite for Conn {
     fn poll_write(self: Pin<&mut Self>, _: &mut Context<'_>, buf: &[u8]) -> Poll<std::io::Result<usize>> {
         let mut term = self.term.lock().unwrap_or_else(|e| e.into_inner());
+        if term.runaway {
+            return Poll::Pending;
+        }
         let mut c = self.st.lock().unwrap_or_else(|e| e.into_inner());
         c.wbuf.extend_from_slice(buf);
         loop {
@@ -444,6 +477,16 @@ impl AsyncWrite for Conn {
             let cf = (frame[0], frame[1]);
             let name = cmd_name(cf, &frame);
             if name == "Ack" && len == 0 {
+                if let Some((fp_, kind)) = c.fault.clone() {
+                    if kind == "write_error" && fp_ >= 1 && fp_ + 1 == c.pos && c.unacked {
+                        // the acknowledgement of reply fp_ is not transmitted: the write fails (once)
+                        c.fault = None;
+                        c.pending.clear();
+                        let (id, ex) = (c.id, c.ex);
+                        term.log(json!({"e": "fault", "conn": id, "ex": ex, "pos": fp_, "kind": kind}));
+                        return Poll::Ready(Err(std::io::Error::new(std::io::ErrorKind::ConnectionReset, "write failed")));
+                    }
+                }
                 c.unacked = false;
                 term.log(json!({"e": "rx", "conn": c.id, "ex": c.ex, "cmd": "Ack", "raw": frame}));
                 send_next(&mut term, &mut c, &self.st);
@@ -472,6 +515,13 @@ impl AsyncWrite for Conn {
             c.ex = term.next_ex;
             c.pos = 0;
             c.pending.clear();
+            if plan.get("fault").map(|f| f["kind"] == "write_error" && f["pos"].as_u64().unwrap_or(0) == 0).unwrap_or(false) {
+                // the command itself is not transmitted: the write fails (once); the terminal never sees the frame
+                let (id, ex) = (c.id, c.ex);
+                c.fault = None;
+                term.log(json!({"e": "fault", "conn": id, "ex": ex, "pos": 0, "kind": "write_error"}));
+                return Poll::Ready(Err(std::io::Error::new(std::io::ErrorKind::ConnectionReset, "write failed")));
+            }
             term.log(json!({"e": "rx", "conn": c.id, "ex": c.ex, "cmd": name, "raw": frame, "hs": is_hs}));
             let (frames, outcome, code) = script_for(&mut term, &frame, &plan);
             term.log(json!({"e": "plan", "conn": c.id, "ex": c.ex, "cmd": name, "o": outcome, "code": code, "plan": plan}));
@@ -551,6 +601,9 @@ impl Connector for SimConnector {
     fn connect(&self, _addr: std::net::SocketAddr) -> ConnectFuture {
         let term = self.term.clone();
         Box::pin(async move {
+            if term.lock().unwrap_or_else(|e| e.into_inner()).runaway {
+                futures::future::pending::<()>().await;
+            }
             let hs = { term.lock().unwrap_or_else(|e| e.into_inner()).handshake.front().cloned().unwrap_or(json!({})) };
             match hs.get("connect").and_then(|c| c.as_str()).unwrap_or("ok") {
                 "refused" => {
@@ -624,6 +677,11 @@ async fn guarded_call<T, F: std::future::Future<Output = anyhow::Result<T>>>(ter
     use futures::FutureExt;
     let r = tokio::time::timeout(std::time::Duration::from_secs(86400), std::panic::AssertUnwindSafe(f).catch_unwind()).await;
     let mut t = term.lock().unwrap_or_else(|e| e.into_inner());
+    if t.runaway {
+        // the call kept exchanging packets far beyond anything its retry budget allows; the terminal went silent to end it
+        t.log(json!({"e": "hang", "op": op, "why": "runaway"}));
+        return false;
+    }
     match r {
         Err(_) => {
             t.log(json!({"e": "hang", "op": op}));
@@ -653,6 +711,8 @@ pub fn run_scenario(sc: &Value) -> Value {
         let start = tokio::time::Instant::now();
         let tcfg = sc.get("term").cloned().unwrap_or(json!({}));
         let term: Shared = Arc::new(Mutex::new(Term {
+            call_mark: 0,
+            runaway: false,
             start,
             events: vec![],
             conns: vec![],
@@ -685,12 +745,17 @@ pub fn run_scenario(sc: &Value) -> Value {
             };
             {
                 let mut t = term.lock().unwrap_or_else(|e| e.into_inner());
+                t.call_mark = t.events.len();
                 t.log(json!({"e": "call", "op": op, "token": call.get("token").cloned().unwrap_or(json!([])), "amount": call.get("amount").cloned().unwrap_or(json!([]))}));
             }
             if op == "new" {
                 use futures::FutureExt;
                 let r = tokio::time::timeout(std::time::Duration::from_secs(86400), std::panic::AssertUnwindSafe(Feig::new(config.clone())).catch_unwind()).await;
                 let mut t = term.lock().unwrap_or_else(|e| e.into_inner());
+                if t.runaway {
+                    t.log(json!({"e": "hang", "op": op, "why": "runaway"}));
+                    break;
+                }
                 match r {
                     Err(_) => { t.log(json!({"e": "hang", "op": op})); break; }
                     Ok(Err(_)) => { t.log(json!({"e": "panic", "op": op, "text": ""})); break; }
@@ -726,12 +791,20 @@ pub fn run_scenario(sc: &Value) -> Value {
                     t.plan = saved.0;
                     t.handshake = saved.1;
                     t.events.truncate(saved.2);
-                    let nc = if sc.get("start").and_then(|s| s.as_str()) == Some("disconnected") { 0 } else { t.next_conn };
+                    // the connection the constructed client holds: the last one opened, if it was not dropped
+                    let alive = t.conns.last().map(|c| !c.lock().unwrap_or_else(|e| e.into_inner()).dropped).unwrap_or(false);
+                    let nc = if alive { t.next_conn } else { 0 };
+                    // what the construction did to the terminal is not part of the scenario
+                    t.terminal_id = tcfg.get("terminal_id").and_then(|s| s.as_str()).unwrap_or("52523535").to_string();
                     t.log(json!({"e": "constructed", "conn": nc}));
-                    if panicked {
+                    if t.runaway {
+                        // the construction (its configure call) ran away: the scenario ends there, as a call that does not return
+                        t.log(json!({"e": "hang", "op": "configure", "why": "runaway"}));
+                        f = None;
+                    } else if panicked {
                         // the construction itself panicked (its configure call): the scenario ends there, as a panicking call
                         t.log(json!({"e": "panic", "op": "configure", "text": "panic while constructing the client"}));
-                    } else if f.is_none() {
+                    } else if f.is_none() && !t.runaway {
                         t.log(json!({"e": "harness-error", "text": "the client could not be constructed"}));
                     }
                 }
